@@ -86,6 +86,24 @@ def image_spec(draw, cls, tier):
             spec["clusters"].sort()
             spec["l2_interleave"] = False
             spec["size"] = ng * 512 - draw(st.sampled_from([0, 0]))
+        elif draw(st.booleans()):
+            # alternating present / absent L2 tables (L1 holes), data right at the table boundaries
+            cb = draw(st.sampled_from([9, 9, 10]))
+            l2e = (1 << cb) // 8
+            ntab = draw(st.integers(4, 12))
+            spec = draw(c01.qcow2_spec(tier, size_clusters=ntab * l2e, cluster_bits=cb, allow_backing=draw(st.booleans()),
+                                       force={"version": draw(st.sampled_from([2, 3])), "ext_l2": False, "data_file": False}))
+            keep = draw(st.sampled_from([0, 1]))
+            cl = []
+            slot = 0
+            for t in range(ntab):
+                if t % 2 == keep:
+                    for i in (0, 1, l2e - 1):
+                        cl.append([t * l2e + i, "n", slot, None])
+                        slot += 1
+            spec["clusters"] = cl
+            spec["l2_interleave"] = False
+            spec["l2_slots"] = {}
         else:
             spec = draw(c01.qcow2_spec(tier, allow_backing=True))
         return spec
@@ -523,8 +541,12 @@ def make_machine(cls, tier, col):
                 base = self.r.pos
             elif kind == 4:
                 base = (k % (size // o.table_span + 2)) * o.table_span
-            elif kind in (6, 7):
+            elif kind == 6:
                 base = o.points[k % len(o.points)]
+            elif kind == 7:
+                # a little before stored data, one or two mapping tables back: runs that start in a hole covered by an
+                # absent second-level table and end in stored data
+                base = o.points[k % len(o.points)] - (1 + (k // 7) % 2) * min(o.table_span, 1 << 20) + (k % 3) * 512
             else:
                 base = (k * 7919) % (size + 1)
             return max(0, base + delta)
@@ -539,6 +561,8 @@ def make_machine(cls, tier, col):
                 return min(3 << 20, o.unit * (1 + k % 3) + [-1, 0, 1, 512][k % 4])
             if kind == 3:
                 return min(3 << 20, max(0, o.size - self.r.pos) + [0, 1, 4096][k % 3])
+            if kind == 4:
+                return min(3 << 20, min(o.table_span, 1 << 20) * (1 + k % 2) + [0, 512, BUFSIZE, 4096 + 1][k % 4])
             return k % 5000
 
         DELTAS = [-BUFSIZE - 1, -BUFSIZE, -513, -512, -1, 0, 1, 511, 512, 513, BUFSIZE - 1, BUFSIZE, BUFSIZE + 1]
